@@ -26,6 +26,10 @@ type cmp struct {
 	subsecLost  int
 	sameOffset  bool // lenient mode: additionally require equal zone offsets (payloads that carry the offset)
 	ignoreField map[string]bool
+	// onlyTop: when set, only these top-level fields are compared.
+	onlyTop map[string]bool
+	// skipBytes: byte slices are not compared (buffers a decoder may reuse).
+	skipBytes bool
 }
 
 type difference struct {
@@ -118,6 +122,9 @@ func (c *cmp) diff(a, b reflect.Value, path string) *difference {
 			}
 			return nil
 		case typBytes:
+			if c.skipBytes {
+				return nil
+			}
 			x, y := a.Bytes(), b.Bytes()
 			if !bytes.Equal(x, y) {
 				return mk(path, "bytes (len %d) %x vs (len %d) %x", len(x), trunc(x), len(y), trunc(y))
@@ -192,6 +199,9 @@ func (c *cmp) diff(a, b reflect.Value, path string) *difference {
 				continue // submission state, not part of the payload
 			}
 			if c.ignoreField[f.Name] {
+				continue
+			}
+			if c.onlyTop != nil && path == "" && !c.onlyTop[f.Name] {
 				continue
 			}
 			if d := c.diff(a.Field(i), b.Field(i), path+"."+f.Name); d != nil {
